@@ -67,9 +67,11 @@ func (q *queue[T]) Add(data T, configs ...JobConfigFunc) (EnqueuedJob, bool) {
 	// must precede Enqueue: once visible, the job may already be Processing or Closed
 	j.changeStatus(queued)
 	if ok := q.internalQueue.Enqueue(j); !ok {
+		vhook("add.enq", j, false)
 		j.Close()
 		return nil, false
 	}
+	vhook("add.enq", j, true)
 
 	q.w.Metrics().incSubmitted()
 	q.w.notifyToPullNextJobs()
@@ -85,9 +87,11 @@ func (q *queue[T]) AddAll(items []Item[T]) EnqueuedGroupJob {
 		// must precede Enqueue: once visible, the job may already be Processing or Closed
 		j.changeStatus(queued)
 		if ok := q.internalQueue.Enqueue(j); !ok {
+			vhook("add.enq", j, false)
 			j.Close()
 			continue
 		}
+		vhook("add.enq", j, true)
 
 		q.w.Metrics().incSubmitted()
 		q.w.notifyToPullNextJobs()
@@ -129,9 +133,11 @@ func (q *errorQueue[T]) Add(data T, configs ...JobConfigFunc) (EnqueuedErrJob, b
 	// must precede Enqueue: once visible, the job may already be Processing or Closed
 	j.changeStatus(queued)
 	if ok := q.internalQueue.Enqueue(j); !ok {
+		vhook("add.enq", j, false)
 		j.Close()
 		return nil, false
 	}
+	vhook("add.enq", j, true)
 
 	q.w.Metrics().incSubmitted()
 	q.w.notifyToPullNextJobs()
@@ -147,9 +153,11 @@ func (q *errorQueue[T]) AddAll(items []Item[T]) EnqueuedErrGroupJob {
 		// must precede Enqueue: once visible, the job may already be Processing or Closed
 		j.changeStatus(queued)
 		if ok := q.internalQueue.Enqueue(j); !ok {
+			vhook("add.enq", j, false)
 			j.Close()
 			continue
 		}
+		vhook("add.enq", j, true)
 
 		q.w.Metrics().incSubmitted()
 		q.w.notifyToPullNextJobs()
@@ -190,9 +198,11 @@ func (q *resultQueue[T, R]) Add(data T, configs ...JobConfigFunc) (EnqueuedResul
 	// must precede Enqueue: once visible, the job may already be Processing or Closed
 	j.changeStatus(queued)
 	if ok := q.internalQueue.Enqueue(j); !ok {
+		vhook("add.enq", j, false)
 		j.Close()
 		return nil, false
 	}
+	vhook("add.enq", j, true)
 
 	q.w.Metrics().incSubmitted()
 	q.w.notifyToPullNextJobs()
@@ -208,9 +218,11 @@ func (q *resultQueue[T, R]) AddAll(items []Item[T]) EnqueuedResultGroupJob[R] {
 		// must precede Enqueue: once visible, the job may already be Processing or Closed
 		j.changeStatus(queued)
 		if ok := q.internalQueue.Enqueue(j); !ok {
+			vhook("add.enq", j, false)
 			j.Close()
 			continue
 		}
+		vhook("add.enq", j, true)
 
 		q.w.Metrics().incSubmitted()
 		q.w.notifyToPullNextJobs()
@@ -249,7 +261,9 @@ func (eq *externalBaseQueue) Worker() Worker {
 
 func (eq *externalBaseQueue) Purge() {
 	prevValues := eq.q.Values()
+	vhook("purge.values", len(prevValues))
 	eq.q.Purge()
+	vhook("purge.purged")
 
 	// close all pending channels to avoid routine leaks
 	for _, val := range prevValues {
